@@ -188,15 +188,20 @@ fn sweep_zone_lookups(rec: &Recorder) -> Tally {
                     let n = (t as i128 + ds) * G + dn;
                     tl.evals += 1;
                     let (q, r) = ref_split(n);
-                    let a = DateTime::from_total_nanoseconds(n, z);
-                    let b = DateTime::from_timespec(q as i64, r, z);
-                    let same = match (&a, &b) {
-                        (Ok(x), Ok(y)) => same_dt(x, y) && x.total_nanoseconds() == n,
-                        (Err(x), Err(y)) => format!("{x:?}") == format!("{y:?}"),
-                        _ => false,
-                    };
-                    if !same {
-                        rec.violation("zone_lookups", json!({"kind":"n","n":n.to_string()}), json!(format!("from_timespec({q}, {r}, zone): {b:?}")), json!(format!("{a:?}")));
+                    let res = guard(|| {
+                        let a = DateTime::from_total_nanoseconds(n, z);
+                        let b = DateTime::from_timespec(q as i64, r, z);
+                        let same = match (&a, &b) {
+                            (Ok(x), Ok(y)) => same_dt(x, y) && x.total_nanoseconds() == n,
+                            (Err(x), Err(y)) => format!("{x:?}") == format!("{y:?}"),
+                            _ => false,
+                        };
+                        (same, format!("from_timespec({q}, {r}, zone): {b:?}"), format!("{a:?}"))
+                    });
+                    match res {
+                        Ok((true, _, _)) => {}
+                        Ok((false, e, g)) => rec.violation("zone_lookups", json!({"kind":"n","n":n.to_string()}), json!(e), json!(g)),
+                        Err(m) => rec.violation("zone_lookups", json!({"kind":"n","n":n.to_string()}), json!("no panic"), json!(m)),
                     }
                 }
             }
